@@ -1,5 +1,5 @@
 (** C11 — Lexicon CSV rows are preserved verbatim as words. *)
-From Vib Require Import Model.Base Model.Text Model.LexCsv Proofs.LexCsvProofs.
+From Vib Require Import Model.Base Model.Text Model.LexCsv Proofs.LexCsvProofs Proofs.LexCsvLayout.
 Local Open Scope N_scope.
 
 (** For every list of rows — surface any byte string (written quoted, quotes doubled, whenever it
@@ -12,6 +12,18 @@ Local Open Scope N_scope.
 Theorem c11_parse_render : forall rows, Forall row_ok rows ->
   parse_lex_csv (concat (map render_row rows)) = Ok (map entry_of (filter keep rows)).
 Proof. exact parse_render. Qed.
+
+(** ALL LAYOUTS of the property's quantifier: blank lines in front; feature cells plain or quoted
+    (any bytes inside the quotes: commas, doubled quotes, line breaks), kept byte for byte
+    including the quoting; every row ended by LF, CR or CRLF and any number of blank lines
+    ([eol]: a non-empty sequence of CR / LF bytes); optionally a last row that ends with the input
+    (missing final newline).  The words are exactly the rows with a non-empty surface, in order. *)
+Theorem c11_all_layouts : forall pre rows last,
+  Forall crlf pre -> Forall (fun r => lrow_ok r /\ eol (l_term r)) rows ->
+  match last with Some r => lrow_ok r /\ l_term r = [] | None => True end ->
+  parse_lex_csv (pre ++ concat (map render_lrow rows) ++ match last with Some r => render_lrow r | None => [] end)
+  = Ok (map lentry (filter lkeep (rows ++ match last with Some r => [r] | None => [] end))).
+Proof. exact parse_render_layout. Qed.
 
 (** a quoted first cell comes back unquoted whatever bytes it holds *)
 Theorem c11_surface_unquoted : forall q s rest, exists raw,
@@ -34,7 +46,35 @@ Example c11_example :
          {| le_surface := [98]; le_lid := 0; le_rid := 0; le_cost := 8%Z; le_feature := [] |} ].
 Proof. vm_compute. reflexivity. Qed.
 
+(** non-vacuity of [c11_all_layouts]: a leading blank line, a row ended by CRLF + a blank line whose
+    feature has a quoted cell holding a comma and a doubled quote, and a last row without newline *)
+Definition ex11_head (sf : list N) : srow :=
+  {| s_surface := sf; s_quote := false; s_ltxt := [49]; s_rtxt := [50]; s_ctxt := [45;51];
+     s_lid := 1; s_rid := 2; s_cost := (-3)%Z; s_cells := [] |}.
+Definition ex11_r1 : lrow := {| l_head := ex11_head [97;44;98]; l_cells := [FP [102]; FQ [120;44;34;121]]; l_term := [13;10;10] |}.
+Definition ex11_r2 : lrow := {| l_head := ex11_head [99]; l_cells := [FP []]; l_term := [] |}.
+Example c11_layout_example :
+  (lrow_ok ex11_r1 /\ eol (l_term ex11_r1)) /\ (lrow_ok ex11_r2 /\ l_term ex11_r2 = []) /\
+  [10] ++ render_lrow ex11_r1 ++ render_lrow ex11_r2 =
+    [10] ++ [34;97;44;98;34;44;49;44;50;44;45;51;44;102;44;34;120;44;34;34;121;34;13;10;10] ++ [99;44;49;44;50;44;45;51;44] /\
+  le_feature (lentry ex11_r1) = [102;44;34;120;44;34;34;121;34].
+Proof.
+  assert (P : forall l, Forall (fun b => b <> 44 /\ b <> 10 /\ b <> 13 /\ b <> 34) l -> plain l).
+  { intros l F b Hb. rewrite Forall_forall in F. now apply F. }
+  assert (Hk : forall sf cells t, cells <> [] -> Forall cell_ok cells -> lrow_ok {| l_head := ex11_head sf; l_cells := cells; l_term := t |}).
+  { intros sf cells t H1 H2. unfold lrow_ok. cbn [l_head l_cells ex11_head s_ltxt s_rtxt s_ctxt s_lid s_rid s_cost].
+    refine (conj _ (conj _ (conj _ (conj _ (conj _ (conj _ (conj H1 H2))))))); try (apply P; repeat constructor; discriminate); vm_compute; reflexivity. }
+  split; [split|split; [split|split]].
+  - apply Hk; [discriminate|]. apply Forall_cons; [apply P; repeat constructor; discriminate|]. apply Forall_cons; [exact I|constructor].
+  - split; [discriminate|]. apply Forall_cons; [now right|]. apply Forall_cons; [now left|]. apply Forall_cons; [now left|constructor].
+  - apply Hk; [discriminate|]. apply Forall_cons; [intros b []|constructor].
+  - reflexivity.
+  - vm_compute. reflexivity.
+  - vm_compute. reflexivity.
+Qed.
+
 Check c11_parse_render.
 Print Assumptions c11_parse_render.
 Print Assumptions c11_surface_unquoted.
 Print Assumptions c11_blank_lines.
+Print Assumptions c11_all_layouts.
